@@ -35,7 +35,8 @@ def main():
     dst = os.path.join(VERIF, "seeded", args.seed_id)
     os.makedirs(dst, exist_ok=True)
     for f in ("patch.diff", "demo.py", "notes.md"):
-        if os.path.exists(os.path.join(args.src, f)):
+        if os.path.exists(os.path.join(args.src, f)) and \
+                os.path.realpath(args.src) != os.path.realpath(dst):
             shutil.copy(os.path.join(args.src, f), dst)
     meta_path = os.path.join(dst, "meta.json")
     meta = json.load(open(meta_path)) if os.path.exists(meta_path) else {}
